@@ -276,6 +276,15 @@ impl SvgCfg {
     }
 }
 
+/// Margins that put some module coordinate (margin + index, index < 177) exactly on, just below or just above a
+/// boundary where the textual or binary width of a coordinate changes: 10, 100, 1000, 10 000, 100 000 and 128, 256,
+/// 512, 1024, 4096, 65 536 (those <= `max`).
+pub fn boundary_margin(max: usize) -> BoxedStrategy<usize> {
+    const B: [usize; 11] = [10, 100, 1000, 10_000, 100_000, 128, 256, 512, 1024, 4096, 65_536];
+    let bs: Vec<usize> = B.iter().copied().filter(|b| *b <= max).collect();
+    (proptest::sample::select(bs), 0usize..60, 0usize..3).prop_map(|(b, back, d)| (b + d).saturating_sub(1 + back)).boxed()
+}
+
 /// Image geometry overrides over the whole range a caller may pass (finite values): size 0, fractions, ordinary,
 /// very large; gap negative down to and beyond minus half the size (a logo without backing box), zero, positive, large;
 /// position anywhere, including coordinates exactly 0.0, negative and beyond the symbol. Each independently absent.
